@@ -12,10 +12,10 @@ import (
 
 func main() {
 	lib.Main("C01", func(c *lib.Ctx) {
-		c.Header = "From Coq Require Import List NArith.\nImport ListNotations.\nFrom GMS Require Import Corr.C01.\nOpen Scope N_scope."
+		c.Header = "From Coq Require Import List NArith ZArith.\nImport ListNotations.\nFrom GMS Require Import Corr.C01.\nOpen Scope N_scope."
 		c.CaseType = "C01.case"
 		c.MismatchFn = "C01.mismatches"
-		c.SetRule("three streams. (1) reorder: edges with join types over all 37 plan.JoinType values (mostly the 12 that getOpIdx accepts), " +
+		c.SetRule("four streams. (0) operators: plan.NewJoin nodes (inner, left outer, semi, anti, anti-include-nulls, hash / left-outer-hash / semi-hash / anti-hash-include-nulls, merge / left-outer-merge over key-sorted inputs) over two in-memory tables of 0-6 rows (k, v) with NULLs and duplicate keys, ON = l.k = r.k plus an optional extra conjunct, executed by rowexec.DefaultBuilder; the row SEQUENCE is compared with the Coq operator models inside Coq. (1) reorder: edges with join types over all 37 plan.JoinType values (mostly the 12 that getOpIdx accepts), " +
 			"vertex sets / SES / nullRejectedRels over 4 vertices, half of them in the shapes calcTES builds; observed assoc / leftAsscom / " +
 			"rightAsscom / commute results are compared with the Coq model inside Coq. (2) engine: SELECTs over 2-4 generated tables (6 key layouts, " +
 			"random secondary indexes, values 0-2 and NULL, 0-9 rows), 1-4 tables in FROM (inner / left / right / cross, ON = equalities, <=>, " +
@@ -40,6 +40,10 @@ func main() {
 				var cs engCase
 				lib.LoadReplay(c.ReplayFile, &cs)
 				runEngine(c, cs)
+			case "oper":
+				var cs operCase
+				lib.LoadReplay(c.ReplayFile, &cs)
+				runOper(c, cs)
 			default:
 				var cs reorderCase
 				lib.LoadReplay(c.ReplayFile, &cs)
@@ -52,7 +56,11 @@ func main() {
 			runEngine(c, cs)
 		}
 		nEng := c.N / 8
-		for i := 0; i < c.N-nEng; i++ {
+		nOper := c.N / 2
+		for i := 0; i < nOper; i++ {
+			runOper(c, genOperCase(c.R.Fork()))
+		}
+		for i := 0; i < c.N-nEng-nOper; i++ {
 			runReorder(c, genReorderCase(c.R.Fork()))
 		}
 		for i := 0; i < nEng; i++ {
